@@ -19,8 +19,11 @@ from dsmc import reader
 from dsmc.commitworld import TableWorld, outcome_of
 from dsmc.env import ENV
 from dsmc.report import Report, pmap
-from dsmc.sched import Execution, Explorer
+from dsmc.sched import DONE, Execution, Explorer
 from dsmc.tables import row
+from dsmc.worlds import root_actor
+
+LEASE_JUMP = 61.0  # the S3 metadata lock's lease is 60 s
 
 FIELDS_P = [{"id": 1, "name": "a", "type": "long", "required": True}, {"id": 2, "name": "s", "type": "string", "required": False}]
 FIELDS_B = [{"id": 1, "name": "b", "type": "long", "required": True}]
@@ -74,8 +77,41 @@ class C18World(TableWorld):
         else:
             self.s3w.s3.load_state(self._template_state)
             self.adapter.reset()
+            self.lock_writer = None
+            if self._lock_spy not in self.s3w.s3.after:
+                self.s3w.s3.after.append(self._lock_spy)
         ENV.clock = self.t_start
         self.handles = []
+
+    # ---- deviation: a creator's process (heartbeat thread included) is paused while it owns the metadata lock and the
+    # clock passes the lease; it is resumed at any later point -------------------------------------------------------
+    def _lock_spy(self, req: Any, res: Any) -> None:
+        if req.key.endswith("/.locks/metadata.lock") and not isinstance(res, BaseException):
+            if req.op == "PUT":
+                self.lock_writer = root_actor(req.actor)
+            elif req.op == "DELETE":
+                self.lock_writer = None
+
+    def extra_options(self, ex: Execution) -> List[Tuple]:
+        opts: List[Tuple] = []
+        for a in ex.actors:
+            if "." in a.name:
+                continue
+            if a.frozen:
+                opts.append(("resume", a.name))
+            elif (a.state != DONE and ex.jumps < self.cfg.get("max_pauses", 0) and a.steps > 0
+                  and a.name in self.cfg.get("pause_only", [a.name]) and self.lock_writer == a.name):
+                opts.append(("pause+61s", a.name))
+        return opts
+
+    def apply_extra(self, ex: Execution, opt: Tuple) -> None:
+        kind, name = opt
+        for a in ex.actors:
+            if root_actor(a.name) == name:
+                a.frozen = (kind != "resume")
+        if kind != "resume":
+            ENV.clock = round(ENV.clock + LEASE_JUMP, 6)
+            ex.jumps += 1
 
     # ---- independent view of the committed state ---------------------------
     def _disk_md(self) -> Optional[Dict[str, Any]]:
@@ -205,7 +241,7 @@ def run_config(cfg: Dict[str, Any]) -> Dict[str, Any]:
     w = C18World(cfg["backend"], cfg["init"], tuple(cfg["actors"]), rep, cfg)
     try:
         exp = Explorer(w, bound=cfg.get("bound"), seed=cfg["seed"], clock_mode="TICK", horizon=4000,
-                       max_exec=cfg.get("max_exec"))
+                       max_exec=cfg.get("max_exec"), has_extra=bool(cfg.get("max_pauses")))
         exp.on_complete = w.check
         stats = exp.explore()
         exp.visited.clear()
@@ -231,12 +267,14 @@ def run_config(cfg: Dict[str, Any]) -> Dict[str, Any]:
 def configs(tier: str, seed: int) -> List[Dict[str, Any]]:
     out = []
 
-    def add(backend, init, actors, bound=None, sample=False):
-        cid = f"{backend}/{init}/{'+'.join(actors)}" + (f"/b{bound}" if bound is not None else "")
+    def add(backend, init, actors, bound=None, sample=False, max_pauses=0, pause_only=None):
+        cid = f"{backend}/{init}/{'+'.join(actors)}" + (f"/b{bound}" if bound is not None else "") \
+            + (f"/pauses{max_pauses}" if max_pauses else "")
         import os as _os
 
         out.append({"id": cid, "backend": backend, "init": init, "actors": list(actors), "bound": bound,
-                    "tier": tier, "seed": seed, "sample": sample,
+                    "tier": tier, "seed": seed, "sample": sample, "max_pauses": max_pauses,
+                    **({"pause_only": pause_only} if pause_only else {}),
                     "max_exec": int(_os.environ["DSMC_MAX_EXEC"]) if _os.environ.get("DSMC_MAX_EXEC") else None})
 
     light = [("createA", "createB"), ("createA", "open_or_create")]
@@ -260,6 +298,12 @@ def configs(tier: str, seed: int) -> List[Dict[str, Any]]:
             else:
                 add("s3", init, combo, bound=hb)
                 add("local", init, combo, bound=hb)
+    # a creator paused past its lease while holding the metadata lock: the second line of defence
+    # (create-if-absent pointer write) must still let exactly one initialisation win
+    for init in (("absent", "v0_no_pointer") if tier == "quick" else STATES):
+        add("s3", init, ("createA", "createA_append"), bound=0 if tier == "quick" else 1, max_pauses=1, pause_only=["A"])
+    if tier != "quick":
+        add("s3", "absent", ("createA_append", "createB"), bound=1, max_pauses=1)
     if tier == "quick":
         add("s3", "absent", ("createA_append", "createB", "open_or_create"), bound=0)
     else:
@@ -290,7 +334,7 @@ def replay(case: Dict[str, Any]) -> Dict[str, Any]:
     rep = Report("C18", cfg["tier"], cfg["seed"], "model_checking")
     w = C18World(cfg["backend"], cfg["init"], tuple(cfg["actors"]), rep, cfg)
     try:
-        exp = Explorer(w, seed=cfg["seed"], clock_mode="TICK")
+        exp = Explorer(w, seed=cfg["seed"], clock_mode="TICK", has_extra=bool(cfg.get("max_pauses")))
         exp.shared_keys, exp.shared_prefixes = set(d["shared_keys"]), set(d["shared_prefixes"])
         ex = exp.execute(d["choices"])
         w.check(ex)
